@@ -2320,6 +2320,12 @@ func (interp *Interpreter) cfg(root *node, sc *scope, importPath, pkgName string
 // fixUntyped propagates implicit type conversions for untyped binary expressions.
 func fixUntyped(nod *node, sc *scope) {
 	nod.Walk(func(n *node) bool {
+		switch n.kind {
+		case binaryExpr, parenExpr, unaryExpr:
+		default:
+			// Do not propagate to operands of calls, indexes, etc: their type is unrelated to nod.
+			return false
+		}
 		if n == nod || (n.kind != binaryExpr && n.kind != parenExpr) || !n.typ.untyped {
 			return true
 		}
